@@ -16,3 +16,8 @@ package registry
 //@   modifies r.entries
 //@   guarantee [registers-only-this] forall k datatransfer.TypeIdentifier :: has(self.entries, k) && !old(has(self.entries, k)) ==> k == identifier && self.entries[k] == processor
 //@   ensures [no-effects] untouched
+
+//@ func (*registry.Registry).Each {C20}
+//@   requires process != nil
+//@   invokes process -- called for every entry while registryLk is read-held: what it may acquire is each caller's obligation
+//@   loop 0 invariant [all-entries] true
